@@ -68,6 +68,9 @@ type skipSpec struct {
 	Cond func(cond ast.Expr) bool // matches the branch condition
 	Pol  bool                     // which truth value of the condition is the allowed skip
 	Desc string
+	// TypeSwitchMiss: the allowed skip is "no case of a type switch matched" (the edge
+	// into go/cfg's SwitchNextCase block of a type switch); Cond is ignored.
+	TypeSwitchMiss bool
 }
 
 // eachIteration checks: in the range loop r of function fi, every path from the start
@@ -138,6 +141,17 @@ func (w *World) eachIteration(fi *FuncInfo, g *cfg.CFG, r *ast.RangeStmt, target
 		}
 		cond := blockCond(b)
 		for i, s := range b.Succs {
+			if cond == nil && len(b.Succs) == 2 && i == 1 && s.Kind == cfg.KindSwitchNextCase && isTypeSwitchHead(b) {
+				allowed := false
+				for _, sk := range skips {
+					if sk.TypeSwitchMiss {
+						allowed = true
+					}
+				}
+				if allowed {
+					continue
+				}
+			}
 			if cond != nil {
 				pol := i == 0
 				allowed := false
@@ -159,6 +173,21 @@ func (w *World) eachIteration(fi *FuncInfo, g *cfg.CFG, r *ast.RangeStmt, target
 		viol = fmt.Sprintf("%s: target never reached from loop body", w.pos(r.Pos()))
 	}
 	return sites, viol
+}
+
+// isTypeSwitchHead: the block ends with the `x := y.(type)` guard of a type switch.
+func isTypeSwitchHead(b *cfg.Block) bool {
+	if len(b.Nodes) == 0 {
+		return false
+	}
+	found := false
+	ast.Inspect(b.Nodes[len(b.Nodes)-1], func(n ast.Node) bool {
+		if ta, ok := n.(*ast.TypeAssertExpr); ok && ta.Type == nil {
+			found = true
+		}
+		return true
+	})
+	return found
 }
 
 // returnsNonNilError: last result of the return statement is not the literal nil.
